@@ -43,20 +43,20 @@ def Plain (t : Nat) : Prop := t ≠ T.tFragment ∧ t ≠ T.tFragIndex ∧ t ≠
 
 /-! ### facts about the generated table (closed by evaluation) -/
 
-private theorem frag_last : ∀ pos, pos ≤ T.fields.length - 1 →
+theorem frag_last : ∀ pos, pos ≤ T.fields.length - 1 →
     findFrom T.fields pos T.tFragment = some (T.fields.length - 1, .flat .bytes) := by decide
 
-private theorem frag_at_last : T.fields[T.fields.length - 1]? = some (T.tFragment, .flat .bytes) := by decide
+theorem frag_at_last : T.fields[T.fields.length - 1]? = some (T.tFragment, .flat .bytes) := by decide
 
-private theorem token_kind : ∀ f ∈ T.fields, f.1 = T.tPitToken → f.2 = .flat .bytes := by decide
+theorem token_kind : ∀ f ∈ T.fields, f.1 = T.tPitToken → f.2 = .flat .bytes := by decide
 
-private theorem token_first : findFrom T.fields 0 T.tPitToken = some (2, .flat .bytes) := by decide
+theorem token_first : findFrom T.fields 0 T.tPitToken = some (2, .flat .bytes) := by decide
 
-private theorem consts_distinct : T.tFragment ≠ T.tPitToken ∧ T.tFragment ≠ T.tNack ∧ T.tFragment ≠ T.tFragIndex ∧
+theorem consts_distinct : T.tFragment ≠ T.tPitToken ∧ T.tFragment ≠ T.tNack ∧ T.tFragment ≠ T.tFragIndex ∧
     T.tFragment ≠ T.tFragCount ∧ T.tPitToken ≠ T.tNack ∧ T.tLpPacket < 2^64 ∧ T.tFragment < 2^64 ∧
     T.tPitToken < 2^64 ∧ T.tNack < 2^64 ∧ T.tNackReason < 2^64 ∧ T.tFragIndex ≠ T.tFragCount := by decide
 
-private theorem wf_parse (k : Kind) (v : Bytes) (h : WfFor k v) :
+theorem wf_parse (k : Kind) (v : Bytes) (h : WfFor k v) :
     ∃ x, parseVal T.lengthCheck k v v.length = .ok x ∧ (k = .flat .bytes → x = .flat (.bytes v)) := by
   cases k with
   | flat fk =>
@@ -72,7 +72,7 @@ private theorem wf_parse (k : Kind) (v : Bytes) (h : WfFor k v) :
 
 /-- element-level core: optional headers are collected or skipped, never rejected, and the Fragment is
     always found afterwards -/
-private theorem collect_headers (p : Bytes) (hdrs : List (Nat × Bytes)) (hok : ∀ h ∈ hdrs, HdrOk h) :
+theorem collect_headers (p : Bytes) (hdrs : List (Nat × Bytes)) (hok : ∀ h ∈ hdrs, HdrOk h) :
     ∀ pos acc, pos ≤ T.fields.length - 1 →
       ∃ ext, collect T.fields (parseVal T.lengthCheck) true (hdrs ++ [(T.tFragment, p)]) pos acc
           = .ok (acc ++ ext ++ [(T.tFragment, .flat (.bytes p))]) ∧
@@ -233,14 +233,14 @@ def eraseRes : Except PyErr Res → Except PyErr Res
   | .ok (s, e) => .ok (s, e.map eraseEff)
   | .error x => .error x
 
-private theorem receive_lp_ok (g : Guards) (int : Bytes → Except PyErr IntFacts) (data : Bytes → Except PyErr DataFacts)
+theorem receive_lp_ok (g : Guards) (int : Bytes → Except PyErr IntFacts) (data : Bytes → Except PyErr DataFacts)
     (st : State) (w p : Bytes) (facts : LpFacts) (t n : Nat)
     (hlp : parseLp T w = .ok facts) (hf : facts.fragment = some p) (htl : parseTlNum p 0 = .ok (t, n)) :
     receive g (decoders T int data) st g.lpType w
       = receiveNet g (decoders T int data) st (nackReasonOf facts.nack) facts.pitToken t p := by
   simp [receive, guarded, decoders, hlp, hf, htl, Except.map]
 
-private theorem receiveNet_token_irrelevant (g : Guards) (Dc : Decoders) (st : State) (tok : Option Bytes)
+theorem receiveNet_token_irrelevant (g : Guards) (Dc : Decoders) (st : State) (tok : Option Bytes)
     (t : Nat) (p : Bytes) :
     eraseRes (receiveNet g Dc st none tok t p) = eraseRes (receiveNet g Dc st none none t p) ∧
     (g.usesPitToken = false → receiveNet g Dc st none tok t p = receiveNet g Dc st none none t p) := by
@@ -329,7 +329,7 @@ example : (∀ h ∈ [(98, [1, 2, 3, 4]), (812, [1, 44]), (820, [253, 3, 53, 1, 
 
 /-! ## PIT token on replies -/
 
-private theorem putWithPitToken_eq (d tok : Bytes) :
+theorem putWithPitToken_eq (d tok : Bytes) :
     putWithPitToken T d tok = lpWrap [(T.tPitToken, tok)] d := by
   simp [putWithPitToken, lpWrap, encValue, T, Gen.C10.table, lookup, encVal, encFVal, wireOf]
 
@@ -385,7 +385,7 @@ def WfHist : Nat → List Ev → Prop
   | n, .interest _ :: r => WfHist (n + 1) r
   | n, .reply i _ :: r => i < n ∧ WfHist n r
 
-private theorem runReplies_spec (evs : List Ev) : ∀ (cl : List (Option Bytes)), WfHist cl.length evs →
+theorem runReplies_spec (evs : List Ev) : ∀ (cl : List (Option Bytes)), WfHist cl.length evs →
     runReplies T cl evs = (repliesOf evs).map fun q => reply T ((cl ++ tokensOf evs)[q.1]?).join q.2 := by
   induction evs with
   | nil => intro cl _; rfl
@@ -422,20 +422,20 @@ example : runReplies T [] [.interest (some [1]), .interest none, .interest (some
 
 /-! ## Nack -/
 
-private theorem makeNetworkNack_eq (i : Bytes) (r : Nat) :
+theorem makeNetworkNack_eq (i : Bytes) (r : Nat) :
     makeNetworkNack T i r
       = tlv T.tLpPacket (wireOf [(T.tNack, wireOf [(T.tNackReason, packUint r)]), (T.tFragment, i)]) := by
   simp [makeNetworkNack, encValue, T, Gen.C10.table, lookup, encVal, encFVal, encFields, wireOf]
 
-private theorem nack_at : findFrom T.fields 0 T.tNack = some (3, .model [(T.tNackReason, .uint)] false) := by decide
+theorem nack_at : findFrom T.fields 0 T.tNack = some (3, .model [(T.tNackReason, .uint)] false) := by decide
 
-private theorem tlv_length_le (t : Nat) (v : Bytes) : (tlv t v).length ≤ 18 + v.length := by
+theorem tlv_length_le (t : Nat) (v : Bytes) : (tlv t v).length ≤ 18 + v.length := by
   have a := tlNumSize_cases t
   have b := tlNumSize_cases v.length
   simp only [tlv, List.length_append, writeTlNum_length]
   omega
 
-private theorem packUint_le (r : Nat) : (packUint r).length ≤ 8 := by
+theorem packUint_le (r : Nat) : (packUint r).length ≤ 8 := by
   rcases packUint_length r with h | h | h | h <;> omega
 
 /-- what the envelope decoder returns for the envelope built by `make_network_nack` -/
@@ -575,7 +575,7 @@ example : named ⟨[([[8, 1, 97]], [⟨0, false, []⟩, ⟨1, false, List.replic
 
 /-! ## fragmentation -/
 
-private theorem findFrom_unknown {κ} (tbl : List (Nat × κ)) (pos t : Nat) (h : ∀ k, (t, k) ∉ tbl) :
+theorem findFrom_unknown {κ} (tbl : List (Nat × κ)) (pos t : Nat) (h : ∀ k, (t, k) ∉ tbl) :
     findFrom tbl pos t = none := by
   cases hf : findFrom tbl pos t with
   | none => rfl
@@ -583,7 +583,7 @@ private theorem findFrom_unknown {κ} (tbl : List (Nat × κ)) (pos t : Nat) (h 
     obtain ⟨_, hget⟩ := findFrom_spec _ _ _ _ _ hf
     exact absurd (List.mem_of_getElem? hget) (h ik.2)
 
-private theorem frag_fields_at : findFrom T.fields 0 T.tFragIndex = some (0, .flat .uint) ∧
+theorem frag_fields_at : findFrom T.fields 0 T.tFragIndex = some (0, .flat .uint) ∧
     findFrom T.fields 0 T.tFragCount = some (1, .flat .uint) := by decide
 
 /-- the envelope decoder never accepts an envelope whose first recognised header is FragIndex or
@@ -691,35 +691,35 @@ def NackVal (nv : Bytes) (ro : Option Nat) : Prop :=
 
 /-! ### table facts -/
 
-private theorem afterNack_eq : afterNackFields = T.fields.drop 4 := by decide
+theorem afterNack_eq : afterNackFields = T.fields.drop 4 := by decide
 
-private theorem nack_found : ∀ pos, pos ≤ 3 →
+theorem nack_found : ∀ pos, pos ≤ 3 →
     findFrom T.fields pos T.tNack = some (3, .model [(T.tNackReason, .uint)] false) := by decide
 
-private theorem nack_idx : T.fields[3]? = some (T.tNack, .model [(T.tNackReason, .uint)] false) := by decide
+theorem nack_idx : T.fields[3]? = some (T.tNack, .model [(T.tNackReason, .uint)] false) := by decide
 
-private theorem nack_not_after : ∀ f ∈ T.fields.drop 4, f.1 ≠ T.tNack := by decide
+theorem nack_not_after : ∀ f ∈ T.fields.drop 4, f.1 ≠ T.tNack := by decide
 
 /-- from a position up to the Nack field, a field declared after Nack is found at its later place -/
-private theorem after_found : ∀ pos, pos ≤ 3 → ∀ f ∈ T.fields.drop 4,
+theorem after_found : ∀ pos, pos ≤ 3 → ∀ f ∈ T.fields.drop 4,
     (match findFrom T.fields pos f.1 with | some (i, _) => decide (4 ≤ i) | none => false) = true := by decide
 
 /-- in increasing type order only the Fragment itself could precede a field declared after Nack -/
-private theorem after_above : ∀ f ∈ T.fields.drop 4, f.1 = T.tFragment ∨ T.tNack < f.1 := by decide
+theorem after_above : ∀ f ∈ T.fields.drop 4, f.1 = T.tFragment ∨ T.tNack < f.1 := by decide
 
-private theorem low_fields : ∀ f ∈ T.fields, f.1 ≤ T.tFragCount →
+theorem low_fields : ∀ f ∈ T.fields, f.1 ≤ T.tFragCount →
     f.1 = T.tFragment ∨ f.1 = T.tFragIndex ∨ f.1 = T.tFragCount := by decide
 
-private theorem low_fields_token : ∀ f ∈ T.fields, f.1 ≤ T.tPitToken →
+theorem low_fields_token : ∀ f ∈ T.fields, f.1 ≤ T.tPitToken →
     f.1 = T.tFragment ∨ f.1 = T.tFragIndex ∨ f.1 = T.tFragCount ∨ f.1 = T.tPitToken := by decide
 
-private theorem frag_index_le : T.tFragIndex ≤ T.tFragCount := by decide
+theorem frag_index_le : T.tFragIndex ≤ T.tFragCount := by decide
 
 /-! ### the scan over optional headers -/
 
 /-- optional headers in front of anything: they are collected or skipped, never rejected, and the scan goes on
     behind them at `scanPos` -/
-private theorem collect_prefix (hdrs : List (Nat × Bytes)) (hok : ∀ h ∈ hdrs, HdrOk h) (rest : List (Nat × Bytes)) :
+theorem collect_prefix (hdrs : List (Nat × Bytes)) (hok : ∀ h ∈ hdrs, HdrOk h) (rest : List (Nat × Bytes)) :
     ∀ pos acc, pos ≤ T.fields.length - 1 →
       ∃ ext, collect T.fields (parseVal T.lengthCheck) true (hdrs ++ rest) pos acc
           = collect T.fields (parseVal T.lengthCheck) true rest (scanPos T.fields (hdrs.map (·.1)) pos) (acc ++ ext) ∧
@@ -763,7 +763,7 @@ private theorem collect_prefix (hdrs : List (Nat × Bytes)) (hok : ∀ h ∈ hdr
       · exact h3 e he
 
 /-- no header of a field declared after Nack: the scan is still at or before the Nack field -/
-private theorem scan_before_nack (hdrs : List (Nat × Bytes)) (hok : ∀ h ∈ hdrs, HdrOk h)
+theorem scan_before_nack (hdrs : List (Nat × Bytes)) (hok : ∀ h ∈ hdrs, HdrOk h)
     (hno : ∀ h ∈ hdrs, ¬ AfterNack h.1) : ∀ pos, pos ≤ 3 → scanPos T.fields (hdrs.map (·.1)) pos ≤ 3 := by
   induction hdrs with
   | nil => intro pos hp; simpa [scanPos] using hp
@@ -793,7 +793,7 @@ private theorem scan_before_nack (hdrs : List (Nat × Bytes)) (hok : ∀ h ∈ h
       omega
 
 /-- a header of a field declared after Nack moves the scan beyond the Nack field -/
-private theorem scan_past_nack (hdrs : List (Nat × Bytes)) (hex : ∃ h ∈ hdrs, AfterNack h.1) :
+theorem scan_past_nack (hdrs : List (Nat × Bytes)) (hex : ∃ h ∈ hdrs, AfterNack h.1) :
     ∀ pos, 4 ≤ scanPos T.fields (hdrs.map (·.1)) pos := by
   induction hdrs with
   | nil => obtain ⟨h, hm, _⟩ := hex; simp at hm
@@ -857,7 +857,7 @@ def nackFields : Option Nat → List (Nat × FVal)
   | some r => [(T.tNackReason, .uint r)]
   | none => []
 
-private theorem parseFlat_nackVal (nv : Bytes) (ro : Option Nat) (h : NackVal nv ro) :
+theorem parseFlat_nackVal (nv : Bytes) (ro : Option Nat) (h : NackVal nv ro) :
     parseFlat [(T.tNackReason, FKind.uint)] false T.lengthCheck nv
       = .ok (nackFields ro) := by
   obtain ⟨u1, u2, hu, hcase⟩ := h
@@ -898,7 +898,7 @@ private theorem parseFlat_nackVal (nv : Bytes) (ro : Option Nat) (h : NackVal nv
     rw [this]
     rfl
 
-private theorem lookup_skip {ν} (ext r : List (Nat × ν)) (t : Nat) (h : ∀ e ∈ ext, e.1 ≠ t) :
+theorem lookup_skip {ν} (ext r : List (Nat × ν)) (t : Nat) (h : ∀ e ∈ ext, e.1 ≠ t) :
     lookup (ext ++ r) t = lookup r t :=
   lookup_append_none _ _ _ (lookup_none_of_not_mem _ _ h)
 
@@ -1109,7 +1109,7 @@ example : AfterNack 812 ∧ parseLp T (lpWrap ([(812, [7])] ++ (T.tNack, wireOf 
 
 /-! ### fragmentation headers anywhere in an increasing-order envelope -/
 
-private theorem split_first_frag (hdrs : List (Nat × Bytes))
+theorem split_first_frag (hdrs : List (Nat × Bytes))
     (hex : ∃ h ∈ hdrs, h.1 = T.tFragIndex ∨ h.1 = T.tFragCount) :
     ∃ pre ft fv post, hdrs = pre ++ (ft, fv) :: post ∧ (ft = T.tFragIndex ∨ ft = T.tFragCount) ∧
       ∀ h ∈ pre, h.1 ≠ T.tFragIndex ∧ h.1 ≠ T.tFragCount := by
@@ -1190,14 +1190,14 @@ example : Ascending [(81, [0, 0, 0, 0, 0, 0, 0, 1]), (83, [2]), (84, [1]), (98, 
 
 /-! ### the PIT token of every increasing-order envelope -/
 
-private theorem sized_suffix (pre hdrs : List (Nat × Bytes)) (p : Bytes) (hs : Sized (pre ++ hdrs) p) : Sized hdrs p := by
+theorem sized_suffix (pre hdrs : List (Nat × Bytes)) (p : Bytes) (hs : Sized (pre ++ hdrs) p) : Sized hdrs p := by
   refine ⟨fun h hm => hs.1 h (List.mem_append_right _ hm), hs.2.1, ?_⟩
   have := hs.2.2
   simp only [List.append_assoc, wireOf_length_append pre] at this
   omega
 
 /-- headers of types the format does not have, in front of the others, are invisible to the decoder -/
-private theorem parseLp_skip_unknown (pre hdrs : List (Nat × Bytes)) (p : Bytes) (hs : Sized (pre ++ hdrs) p)
+theorem parseLp_skip_unknown (pre hdrs : List (Nat × Bytes)) (p : Bytes) (hs : Sized (pre ++ hdrs) p)
     (hpre : ∀ h ∈ pre, Unknown h.1) : parseLp T (lpWrap (pre ++ hdrs) p) = parseLp T (lpWrap hdrs p) := by
   have hs' := sized_suffix pre hdrs p hs
   have hsz : ∀ (hd : List (Nat × Bytes)), Sized hd p → ∀ e ∈ hd ++ [(T.tFragment, p)], e.1 < 2^64 ∧ e.2.length < 2^64 := by
